@@ -855,7 +855,7 @@ fn relevant(property: &str, clause: &str) -> bool {
 fn main() {
     let args = Args::parse();
     let property = args.property();
-    std::panic::set_hook(Box::new(|_| {}));
+    vcore::quiet_panics();
     let mut report = Report::new(
         "ws_swarm",
         "random histories of announce(offers/answer)/scrape/close/clean/observe/list-reload from several connections on two socket workers with coinciding connection keys, on the real ws swarm-worker TorrentMaps (mock clock), compared with the reference model after every op; \
